@@ -134,15 +134,11 @@ Section Pos.
   Lemma R_name_write b1 b2 base nl v name :
     R b1 b2 -> Rp (name_write wfixed (base + k) b1 nl v name) (name_write wfixed base b2 nl v name).
   Proof.
-    intros H. unfold name_write. cbn [wv_msg_relative wv_name_no_trunc wv_ptr_limit wfixed].
+    intros H. unfold name_write. cbn [wv_msg_relative wv_name_no_trunc wv_ptr_limit wv_strip_dangling_escape wfixed].
     rewrite (R_len b1 b2 H). replace (wb_len b2 + k - (base + k)) with (wb_len b2 - base) by lia.
     destruct (true && (slen name >=? 512)); [reflexivity|].
     set (off := match nl with Some l => nameoffset_find l (firstn 511 name) | None => None end).
-    set (nc := match off with
-               | Some (on, _) => if negb (slen on =? slen (firstn 511 name))
-                                 then firstn (Z.to_nat (slen (firstn 511 name) - (slen on + 1))) (firstn 511 name)
-                                 else firstn 511 name
-               | None => firstn 511 name end).
+    match goal with |- context [split_dns_name v ?t] => set (nc := t) end.
     set (exact := match off with Some (on, _) => slen on =? slen (firstn 511 name) | None => false end).
     eapply Rb_bind_p.
     - destruct (negb exact); [|exact H].
